@@ -203,7 +203,7 @@ package scheduler
 //@   props C09
 //@   requires er.dags != nil
 //@   modifies contents(er.dags), heap(alloc), heap(map(string, any)), heap(elems(any)), ghost obs.meta_calls, ghost obs.meta_err, ghost obs.meta_dag,
-//@            ghost env.key, ghost env.val, ghost obs.exists_calls, ghost obs.exists, ghost obs.exists_path, ghost obs.stat_err, ghost obs.stat_path
+//@            ghost env.key, ghost env.val, ghost obs.parsed, ghost obs.exists_calls, ghost obs.exists, ghost obs.exists_path, ghost obs.stat_err, ghost obs.stat_path
 //@   ensures [C19 scheduler_start_up_has_no_side_effects] eff.exec == old(eff.exec) && eff.env == old(eff.env)
 //@   ensures [C09 init_survives_bad_files] obs.meta_calls != old(obs.meta_calls) ==> err == nil
 //@   loop 0 step [C09 bad_file_leaves_table_unchanged] obs.meta_calls != iter(obs.meta_calls) && obs.meta_err != nil ==>
